@@ -1,8 +1,8 @@
 """C12 — ticking components tick on clock edges, once per instant, while busy (spec/tick/TickImpl.tla, TickTrace.tla)."""
-from vlib import core, tickcheck
+from vlib import core, tickcheck, partick
 
 LEVEL = "model_checking"
-TECHNIQUE = "TLA+ model of TickNow/TickLater guards explored by TLC (TickDiscipline, GuardSound invariants); scripts replayed on real ticking components with mixed frequencies; tick obligations monitored by TLC on the traces"
+TECHNIQUE = "TLA+ model of TickNow/TickLater guards explored by TLC (TickDiscipline, GuardSound invariants); scripts replayed on real ticking components with mixed frequencies; tick obligations monitored by TLC on the traces; logs of parallel-engine runs (lined-up concurrent wake-ups of one component) validated by TLC against ParTick.tla"
 LEVEL_TEXT = ("TickImpl.tla checks in every reachable state that ticks fall on multiples of the period and at most once per instant, and that the dedup guard covers "
               "every queued tick; the enumerated scripts and seeded random systems with periods that do not divide each other (500, 1000, 2000, 3000, 5000 ps) run on real "
               "TickingComponents and direct connections; TickTrace.tla discharges the statement's obligations on the trace: tick on edge, once per instant, after a progress "
@@ -24,4 +24,7 @@ def run(ck):
     cases, out = tickcheck.run_and_monitor(ck, "random", random=400 if q else 8000, max_comps=5, max_msgs=12, stress=10 if q else 300)
     ck.cov["distinct_nontrivial"] += out["systems"]
     tickcheck.report_cases(ck, cases, {"C12"}, "random")
+    # once per instant with handlers on several goroutines: star systems (several connections wake one receiver) and mesh systems
+    # (twelve lined-up retrievals wake every component of the connection at once)
+    partick.run(ck, systems=6 if q else 60, msgs=60 if q else 200, wide=2 if q else 16, wide_msgs=150 if q else 300, cfg="ParTick.cfg")
     ck.cov["exhaustive"] = True
